@@ -1248,6 +1248,10 @@ class Gen:
             out.append(pr(("EUnary", "UNeg", ident(a)), ("EUpdate", True, True, ident(a)), ("EUpdate", False, False, ident(b))))
         if self.chance(0.3):
             out.append(pr(bin_("BExp", num(self.pick([2, 3, -2, 10])), num(self.pick([0, 1, 2, 3, 10, 31])))))
+        if self.chance(0.25):
+            # exponent NaN / +-0 (exactly specified: NaN resp. 1), with a non-constant operand
+            out.append(let(a + "e", num(self.pick([float("nan"), 0, -0.0, float("nan")]))))
+            out.append(pr(bin_("BExp", self.pick([num(1), num(-1), num(2), ident(a), num(float("nan"))]), ident(a + "e"))))
         return out
 
     def s_i_param_scope(self, sc, cx):
@@ -1558,8 +1562,8 @@ class Gen:
         si = self.add_func(func(name="a", kind="FSetter", params=[(pid("v"), None)], body=[pr(estr(tag + ".set"), ident("v"))], strict=cx.strict))
         src = ("EObject", [("PGet", ("PKStr", u("a")), gi), ("PSet", ("PKStr", u("a")), si), ("PInit", ("PKStr", u("b")), self.lit("int"))])
         k = self.weighted([("opassign", 3), ("update", 2), ("logassign", 2), ("assign", 1)])
-        # (V8 converts a non-primitive key twice in compound assignment / update: such keys only where engines agree)
-        key = p(".k", estr(self.pick(["a", "b"]))) if self.chance(0.6) or k in ("opassign", "update") else self.coerce_obj(tag + "key", val=estr(self.pick(["a", "b"])), kind="toString")
+        # (V8 converts a non-primitive key twice in compound / logical assignment and update: such keys only in plain assignment)
+        key = p(".k", estr(self.pick(["a", "b"]))) if self.chance(0.6) or k in ("opassign", "update", "logassign") else self.coerce_obj(tag + "key", val=estr(self.pick(["a", "b"])), kind="toString")
         tgt = ("EIndex", p(".o", ident(o)), key, False)
         if k == "opassign":
             e = ("EOpAssign", self.pick(["BAdd", "BMul", "BSub"]), tgt, p(".r", self.lit("int")))
